@@ -76,6 +76,13 @@ def cases(tier, seed):
                                     "kind": "grid", "th": th,
                                     "shape": list(shp), "sp": isp, "org": io,
                                     "part": part})
+    # explicit point lists with several heights: the value at a point must
+    # not depend on the other points or on their order
+    for th in TH_TIER[tier]:
+        if th.startswith("mielens"):
+            continue          # MieLens needs all points at one height
+        out.append({"id": "points-mixed-z:%s" % th, "kind": "mixedz",
+                    "th": th})
     # scripted environment: every ordered selection of a 2x3 image
     N = 6
     for k in range(1, N + 1):
@@ -256,6 +263,51 @@ def _run_grid(case, ck):
     return digest(fp_values(Gxy), nrect)
 
 
+MIXED = np.array([[0.0, 0.0, 0.0], [0.3, -0.2, 0.5], [-0.4, 0.25, -0.3],
+                  [0.3, -0.2, 0.0], [0.0, 0.0, 1.0], [0.9, 0.7, -1.2]])
+
+
+def _run_mixedz(case, ck):
+    import holopy as hp
+    th = case["th"]
+    scat, theory = _theory(th)
+
+    def det(P):
+        return hp.detector_points(x=P[:, 0], y=P[:, 1], z=P[:, 2])
+    base = _holo(det(MIXED), scat, theory).values
+    ck.trans += 1
+    fps = [fp_values(base)]
+    for order in ([5, 4, 3, 2, 1, 0], [2, 0, 4, 1, 5, 3], [3, 1, 0, 5, 2, 4]):
+        h = _holo(det(MIXED[order]), scat, _theory(th)[1]).values
+        ck.trans += 1
+        _same(ck, "points-order", th, h, base[order], "%s: the same points "
+              "listed in order %r" % (th, order))
+    for i in range(len(MIXED)):
+        h = _holo(det(MIXED[i:i + 1]), scat, _theory(th)[1]).values
+        ck.trans += 1
+        _same(ck, "point-alone", th, h, base[i:i + 1], "%s: point %r "
+              "evaluated alone vs inside a list with other heights" %
+              (th, MIXED[i].tolist()))
+    # a plane of the list as a grid of its own
+    g = H.det_grid((2, 2), 0.3)
+    G = _holo(g, scat, _theory(th)[1])
+    X, Y = np.meshgrid(g.x.values, g.y.values, indexing="ij")
+    for z in (0.0, 0.5):
+        P = np.stack([X.ravel(), Y.ravel(), np.full(4, z)], 1)
+        mixed = np.concatenate([P, MIXED[[2, 5]]])
+        h = _holo(det(mixed), scat, _theory(th)[1]).values[:4]
+        alone = _holo(det(P), scat, _theory(th)[1]).values
+        ck.trans += 2
+        _same(ck, "plane-in-mixed-list", th, h, alone, "%s: points of the "
+              "plane z=%r inside a list that also holds other heights" %
+              (th, z))
+        if z == 0.0:
+            _same(ck, "plane-vs-grid", th, alone, G.transpose(
+                "x", "y", "z").values[:, :, 0].ravel(), "%s: z=0 points vs "
+                "grid" % th)
+    return digest(*fps)
+
+
 class _Scripted:
     """scripted answer for numpy.random.choice (environment seam)"""
 
@@ -394,6 +446,7 @@ def _run_history(case, ck):
 def run_case(case):
     ck = Checker()
     fp = {"grid": _run_grid, "scripted": _run_scripted,
+          "mixedz": _run_mixedz,
           "history": _run_history}[case["kind"]](case, ck)
     return ck.result(fp=fp)
 
